@@ -122,3 +122,107 @@ def run_real_session(scenario, timeout_s=60.0):
     except OSError:
         pass
     return res
+
+
+def run_real_interrupt(scenario, fault, timeout_s=60.0):
+    """The table manager runs in its own PROCESS (main thread); the four reference clients run here over loopback TCP.
+    At the scripted point - the acting seat is due to send its call / card, so the table manager is waiting for it - that
+    seat sends SIGINT to the server process instead.  Returns a RealResult with .returncode, .output_text, .stderr_tail."""
+    import json
+    import signal
+    import subprocess
+    import sys
+    workdir = os.path.join(VERIF_ROOT, '.work', 'sessions')
+    os.makedirs(workdir, exist_ok=True)
+    fd, out_path = tempfile.mkstemp(suffix='.json', dir=workdir)
+    os.close(fd)
+    os.unlink(out_path)                                  # the table manager creates it
+    fd, spec_path = tempfile.mkstemp(suffix='.spec', dir=workdir)
+    os.close(fd)
+    from vf.common import core
+    res = RealResult()
+    res.client_logs = {s: [] for s in range(4)}
+    res.client_exc, res.client_state = {}, {s: {} for s in range(4)}
+    env = dict(os.environ)
+    env['PYTHONPATH'] = os.pathsep.join([VERIF_ROOT, os.path.join(VERIF_ROOT, '.deps')])
+    proc = None
+    try:
+        for attempt in range(6):
+            port = _free_port()
+            with open(spec_path, 'w') as f:
+                json.dump({'repo': core.REPO, 'port': port, 'out': out_path, 'scenario': scenario}, f)
+            proc = subprocess.Popen([sys.executable, '-m', 'vf.sim.realserver', spec_path], cwd=VERIF_ROOT, env=env,
+                                    stdout=subprocess.PIPE, stderr=subprocess.PIPE, text=True)
+            line = proc.stdout.readline()
+            if 'LISTENING-SOON' in line:
+                break
+            proc.kill()
+            proc.wait()
+        else:
+            raise Inconclusive('server process did not start')
+        sent = threading.Event()
+
+        def interrupt():
+            time.sleep(0.05)          # let the table manager reach its wait for this seat's message
+            proc.send_signal(signal.SIGINT)
+            sent.set()
+
+        def client(seat):
+            team = scenario['teams'][seat % 2]
+            deadline = time.time() + 15
+            while True:
+                sock = socket.socket(socket.AF_INET, socket.SOCK_STREAM)
+                try:
+                    sock.connect(('127.0.0.1', port))
+                    break
+                except OSError:
+                    sock.close()
+                    if time.time() > deadline or proc.poll() is not None:
+                        res.client_exc[seat] = ConnectionRefusedError('server never listened')
+                        return
+                    time.sleep(0.01)
+
+            class Pre:
+                def connect(self, addr):
+                    pass
+
+                def __getattr__(self, name):
+                    return getattr(sock, name)
+            try:
+                sock.settimeout(timeout_s)
+                f = dict(fault, action=interrupt) if fault.get('seat') == seat else None
+                ref_client(seat, team, scenario, None, res.client_logs[seat], fault=f, state=res.client_state[seat], sock=Pre())
+            except BaseException as e:  # noqa
+                res.client_exc[seat] = e
+        threads = []
+        for seat in scenario.get('arrival', [0, 1, 2, 3]):
+            t = threading.Thread(target=client, args=(seat,), daemon=True)
+            t.start()
+            threads.append(t)
+            time.sleep(0.005)
+        try:
+            out, err = proc.communicate(timeout=timeout_s)
+            res.timed_out = False
+        except subprocess.TimeoutExpired:
+            proc.kill()
+            out, err = proc.communicate()
+            res.timed_out = True
+        res.returncode = proc.returncode
+        res.stdout, res.stderr_tail = out, (err or '')[-600:]
+        res.interrupt_sent = sent.is_set()
+        for t in threads:
+            t.join(5)
+    finally:
+        if proc is not None and proc.poll() is None:
+            proc.kill()
+        try:
+            os.unlink(spec_path)
+        except OSError:
+            pass
+    try:
+        with open(out_path) as f:
+            res.output_text = f.read()
+        os.unlink(out_path)
+    except OSError:
+        res.output_text = None
+    return res
